@@ -707,3 +707,42 @@ Proof.
     pose proof (forall2b_spec _ _ H2 _ _ Hin Hin') as P. cbn in P.
     rewrite E1, E1', E2, E2', !N.eqb_refl in P. cbn in P. now apply N.eqb_eq.
 Qed.
+
+(* ------------------------------------------------------------------------------------------ *)
+(** * C11: the execution-link table of every exchange of every built collection *)
+
+Theorem exec_map_aligned : forall l x e, build l = Some x ->
+  (gen_map x e = None <-> ~ In e (map snd (x_exchanges x))) /\
+  forall m, gen_map x e = Some m ->
+    (forall k n, find_instrument_name m k = Some n ->
+       instrument_owner x k = Some (e, n) /\ find_instrument_ix m n = Some k) /\
+    (forall k n, find_instrument_ix m n = Some k ->
+       instrument_owner x k = Some (e, n) /\ find_instrument_name m k = Some n) /\
+    (forall k, (forall n, instrument_owner x k <> Some (e, n)) -> find_instrument_name m k = None) /\
+    (names_distinct x e -> forall k n, instrument_owner x k = Some (e, n) ->
+       find_instrument_name m k = Some n /\ find_instrument_ix m n = Some k) /\
+    (forall k n, find_asset_name m k = Some n ->
+       asset_owner x k = Some (e, n) /\ find_asset_ix m n = Some k) /\
+    (forall k n, find_asset_ix m n = Some k ->
+       asset_owner x k = Some (e, n) /\ find_asset_name m k = Some n) /\
+    (forall k, (forall n, asset_owner x k <> Some (e, n)) -> find_asset_name m k = None) /\
+    (names_distinct x e -> forall k n, asset_owner x k = Some (e, n) ->
+       find_asset_name m k = Some n /\ find_asset_ix m n = Some k).
+Proof.
+  intros l x e Hb. pose proof (build_indexed_wf l x Hb) as Hwf.
+  split; [exact (proj1 (gen_map_exchange x e Hwf))|]. intros m Hg. repeat split.
+  - now apply (instrument_roundtrip x e m k n Hwf Hg).
+  - now apply (instrument_roundtrip x e m k n Hwf Hg).
+  - now apply (instrument_roundtrip_back x e m k n Hwf Hg).
+  - now apply (instrument_roundtrip_back x e m k n Hwf Hg).
+  - intros k Hno. now apply (instrument_only_own x e m k Hwf Hg).
+  - now apply (instrument_total_on_own x e m k n Hwf H Hg).
+  - now apply (instrument_total_on_own x e m k n Hwf H Hg).
+  - now apply (asset_roundtrip x e m k n Hwf Hg).
+  - now apply (asset_roundtrip x e m k n Hwf Hg).
+  - now apply (asset_roundtrip_back x e m k n Hwf Hg).
+  - now apply (asset_roundtrip_back x e m k n Hwf Hg).
+  - intros k Hno. now apply (asset_only_own x e m k Hwf Hg).
+  - now apply (asset_total_on_own x e m k n Hwf H Hg).
+  - now apply (asset_total_on_own x e m k n Hwf H Hg).
+Qed.
